@@ -181,7 +181,7 @@ class C24(Prop):
     props_file = "Props/C24.v"
     preamble = ("From Coq Require Import List.\nImport ListNotations.\n"
                 "From PP Require Import Model.C24 Model.C24_data.\n")
-    n_cases = (200, 3000)
+    n_cases = (200, 2400)
     design_ref = "DESIGN.md §5 C24"
     level_text = (
         "Coq theorems over an executable transcription of MixedDimensionalGrid's five "
@@ -200,7 +200,7 @@ class C24(Prop):
         "dictionary of its own and replacement hands the old grid's dictionaries on to the new "
         "grid. The model is tied to the code on every run by executing both on random "
         "histories (well-formed, rejected and ill-formed calls) and letting Coq compare the "
-        "outcome of every call and, on every third call, after errors and at the end, the raw "
+        "outcome of every call and, on every third (long histories: fifth) call, after errors and at the end, the raw "
         "dictionaries (key order), the identity of every data dictionary and all query results.")
     level_note = (
         "Well-formed means: added grids are new and distinct; an interface is new, joins two "
@@ -224,7 +224,7 @@ class C24(Prop):
         "the model; the implementation is covered on the generated histories only.")
     technique = ("Coq proof (invariant + refinement of an abstract container by induction over "
                  "histories) + vm_compute execution correspondence")
-    rule = ("random histories (<=40 ops quick, <=100 thorough) on a real "
+    rule = ("random histories (<=40 ops quick, <=80 thorough) on a real "
             "pp.MixedDimensionalGrid over a pool of <=12 tiny subdomain grids (dims 0-3) and "
             "<=12 mortar grids (dims 0-2, codim attribute 0-2) created in pool order, added in "
             "random order, removed grids re-added; ~80% well-formed calls incl. self-coupled "
@@ -245,7 +245,7 @@ class C24(Prop):
 
     # ------------------------------------------------------------------ generator
     def generate(self, rng, n, tier):
-        maxops = 40 if tier == "quick" else 100
+        maxops = 40 if tier == "quick" else 80
         for _ in range(n):
             yield self._gen_one(rng, rng.randint(1, maxops))
 
@@ -700,7 +700,8 @@ class C24(Prop):
         obs, dobs = [], []
         kt = lambda l: _l(l, lambda p: f"KT {_g(p[0])} {p[1]}")
         for n, x in enumerate(steps):
-            full = (n % 3 == 2 or n == len(steps) - 1 or x["out"] != "done"
+            every = 3 if len(steps) <= 40 else 5
+            full = (n % every == every - 1 or n == len(steps) - 1 or x["out"] != "done"
                     or (n > 0 and steps[n - 1]["out"] != "done"))
             if full:
                 obs.append(f"Full {_obs(x)}")
